@@ -199,7 +199,43 @@ pub fn j43(a: u64, b: u64) -> u64 { let mut map: HashMap<String, (u64, u64)> = n
 pub fn j44(a: u64, b: u64) -> u64 { let mut map: HashMap<String, u64> = HashMap::new(); let mut order: VecDeque<String> = VecDeque::new(); let limit = (a % 3 + 1) as usize; for x in seq(a, b) { let k = format!("k{}", x); if map.insert(k.clone(), x).is_none() { order.push_back(k); } else { let p = order.iter().position(|q| *q == k).unwrap(); let q = order.remove(p).unwrap(); order.push_back(q); } while order.len() > limit { if let Some(old) = order.pop_front() { map.remove(&old); } } } map.values().sum::<u64>() * 100 + order.len() as u64 * 10 + (map.len() == order.len()) as u64 }
 
 macro_rules! table2 { ($($n:literal => $f:ident),* $(,)?) => {
-    pub fn run2(n: u32, a: u64, b: u64) -> Option<u64> { match n { $($n => Some($f(a, b)),)* _ => None } }
+    pub fn run2(n: u32, a: u64, b: u64) -> Option<u64> { match n { $($n => Some($f(a, b)),)* _ => run3(n, a, b) } }
 } }
 table2! { 201 => j01, 202 => j02, 203 => j03, 204 => j04, 205 => j05, 206 => j06, 207 => j07, 208 => j08, 210 => j10, 211 => j11, 212 => j12, 213 => j13, 214 => j14, 215 => j15, 216 => j16, 217 => j17, 218 => j18,
     220 => j20, 221 => j21, 222 => j22, 223 => j23, 230 => j30, 231 => j31, 232 => j32, 233 => j33, 234 => j34, 235 => j35, 240 => j40, 241 => j41, 242 => j42, 243 => j43, 244 => j44 }
+
+// ======================================================================== third batch: state, dispatch, bits, time
+use std::cell::Cell as StdCell;
+use std::sync::atomic::{AtomicBool, AtomicU64, AtomicUsize, Ordering as AO};
+use std::sync::{Once, OnceLock};
+use std::time::Duration;
+
+pub fn k01(a: u64, b: u64) -> u64 { let c = AtomicU64::new(a % 50 + 5); let p = c.fetch_add(b % 7, AO::Relaxed); let q = c.fetch_sub(1, AO::SeqCst); let o = c.swap(100, AO::AcqRel); c.store(c.load(AO::Acquire) + 1, AO::Release); let m = c.fetch_max(90, AO::Relaxed); p + q * 100 + o * 10000 + m * 1000000 + c.load(AO::Relaxed) * 100000000 }
+pub fn k02(a: u64, b: u64) -> u64 { let f = AtomicBool::new(a % 2 == 0); let was = f.swap(true, AO::SeqCst); let r = f.compare_exchange(true, b % 2 == 0, AO::SeqCst, AO::SeqCst).is_ok(); let r2 = f.compare_exchange(true, false, AO::SeqCst, AO::Relaxed).is_ok(); was as u64 + r as u64 * 10 + r2 as u64 * 100 + f.load(AO::SeqCst) as u64 * 1000 }
+pub fn k03(a: u64, b: u64) -> u64 { let n = AtomicUsize::new((a % 9) as usize); let r = n.compare_exchange((a % 9) as usize, 42, AO::SeqCst, AO::SeqCst); let e = n.compare_exchange(0, 1, AO::SeqCst, AO::SeqCst); let u = n.fetch_update(AO::SeqCst, AO::SeqCst, |x| if x > 40 { Some(x + (b % 3) as usize) } else { None }); r.unwrap_or(99) as u64 + e.unwrap_or_else(|x| x + 1) as u64 * 100 + u.is_ok() as u64 * 100000 + n.load(AO::SeqCst) as u64 * 1000000 }
+pub fn k04(a: u64, b: u64) -> u64 { let c = StdCell::new(a % 11); let old = c.replace(b % 11); c.set(c.get() + 1); let t = c.take(); old + t * 100 + c.get() * 10000 }
+pub fn k05(a: u64, b: u64) -> u64 { let r = RefCell::new(seq(a, b)); { let mut m = r.borrow_mut(); m.push(3); m[0] += 1; } let first = r.borrow()[0]; let blocked = { let _g = r.borrow(); r.try_borrow_mut().is_err() }; let old = r.replace(vec![1, 2]); let t = r.take(); let n = r.borrow().len() as u64; first + blocked as u64 * 100 + old.len() as u64 * 1000 + t.len() as u64 * 100000 + n * 1000000 }
+thread_local! { static TL: RefCell<VecDeque<u64>> = RefCell::new(VecDeque::new()); static TC: StdCell<u64> = StdCell::new(5); }
+pub fn k06(a: u64, b: u64) -> u64 { TL.with(|q| q.borrow_mut().clear()); TL.with(|q| { let mut q = q.borrow_mut(); q.push_back(a % 7); q.push_back(b % 7); }); let n = TL.with(|q| q.borrow().iter().sum::<u64>()); TL.with_borrow_mut(|q| q.push_front(9)); let f = TL.with_borrow(|q| q.front().copied().unwrap_or(0)); TC.set(a % 4); n + f * 100 + TC.get() * 10000 + TL.with(|q| q.borrow().len() as u64) * 100000 }
+static INIT: Once = Once::new();
+static SLOT: OnceLock<u64> = OnceLock::new();
+static COUNT: AtomicU64 = AtomicU64::new(0);
+static TABLE: once_cell::sync::Lazy<parking_lot::RwLock<HashMap<String, u64>>> = once_cell::sync::Lazy::new(|| parking_lot::RwLock::new(HashMap::new()));
+pub fn k07(a: u64, b: u64) -> u64 { INIT.call_once(|| { COUNT.fetch_add(1, AO::SeqCst); }); INIT.call_once(|| { COUNT.fetch_add(10, AO::SeqCst); }); let v = *SLOT.get_or_init(|| 77); let w = *SLOT.get_or_init(|| 88); TABLE.write().insert(format!("t{}", a % 3), b % 9); let hit = TABLE.read().get(&format!("t{}", a % 3)).copied().unwrap_or(0); (COUNT.load(AO::SeqCst) >= 1) as u64 + v * 10 + w * 10000 + hit * 10000000 + INIT.is_completed() as u64 * 100000000 }
+pub fn k08(a: u64, b: u64) -> u64 { let mut reg: HashMap<String, Arc<dyn Fn(&str) -> bool + Send + Sync>> = HashMap::new(); let want = format!("k{}", a % 5); let w2 = want.clone(); reg.insert("eq".to_string(), Arc::new(move |k: &str| k == w2)); reg.insert("any".to_string(), Arc::new(|_k: &str| true)); let keys: Vec<String> = (0..5).map(|i| format!("k{}", i)).collect(); let f = reg.get("eq").cloned(); let n = keys.iter().filter(|k| f.as_ref().map_or(false, |f| f(k.as_str()))).count() as u64; let all = reg.values().map(|f| keys.iter().filter(|k| f(k)).count() as u64).sum::<u64>(); n + all * 10 + reg.get("none").is_none() as u64 * 1000 }
+pub fn k09(a: u64, b: u64) -> u64 { trait Shape { fn area(&self) -> u64; fn name(&self) -> &'static str { "shape" } } struct Sq(u64); struct Re(u64, u64); impl Shape for Sq { fn area(&self) -> u64 { self.0 * self.0 } fn name(&self) -> &'static str { "sq" } } impl Shape for Re { fn area(&self) -> u64 { self.0 * self.1 } } let v: Vec<Box<dyn Shape>> = vec![Box::new(Sq(a % 6)), Box::new(Re(a % 4, b % 4))]; v.iter().map(|s| s.area() + s.name().len() as u64 * 100).sum() }
+pub fn k10(a: u64, b: u64) -> u64 { fn total<I: IntoIterator<Item = u64>>(it: I) -> u64 { it.into_iter().sum() } fn pick<T: PartialOrd + Copy>(x: T, y: T) -> T { if x < y { x } else { y } } total(seq(a, b)) + total([a % 3, b % 3]) * 100 + pick(a % 17, b % 17) * 10000 + total(dq(a, b).into_iter().filter(|x| x % 2 == 0)) * 1000000 }
+pub fn k11(a: u64, b: u64) -> u64 { #[derive(Default, Clone, PartialEq, Debug)] struct Cfg { limit: Option<u64>, ttl: u64, name: String } let d = Cfg::default(); let c = Cfg { limit: Some(a % 5), ..d.clone() }; let e = Cfg { ttl: b % 3, name: "x".into(), ..c.clone() }; (c == d) as u64 + (e.limit == c.limit) as u64 * 10 + e.name.len() as u64 * 100 + c.limit.unwrap_or(9) * 1000 + (e != c) as u64 * 10000 }
+pub fn k12(a: u64, b: u64) -> u64 { let s = if a % 3 == 0 { "fifo" } else if a % 3 == 1 { "lru" } else { "other" }; let p = match s { "fifo" => 0, "lru" => 1, _ => 9 }; let q = match (opt(a), res(b)) { (Some(x), Ok(y)) => x + y, (Some(x), Err(_)) => x * 2, (None, Ok(y)) => 50 + y, (None, Err(e)) => 90 + e }; p + q * 10 }
+pub fn k13(a: u64, b: u64) -> u64 { let mut pair = (opt(a), vec![b % 5, 7]); if let (Some(ref mut x), ref mut v) = pair { *x += 1; v.push(*x); } let n = loop { if let Some(l) = pair.1.pop() { if l % 2 == 1 { break l; } } else { break 0; } }; n + pair.0.unwrap_or(40) * 100 + pair.1.len() as u64 * 10000 }
+pub fn k14(a: u64, b: u64) -> u64 { let x = a as u128 * b as u128 + 7; let hi = (x >> 64) as u64; let lo = x as u64; let t = (a % 1000) as u8; let i = (a % 50) as i64 - (b % 50) as i64; ((lo ^ hi) % 1000) + t as u64 * 1000 + (i.abs() as u64) * 1000000 + ((i < 0) as u64) * 100000000 + ((a | 1) & 0xF0) + ((b % 16) << 3) * 1000000000 }
+pub fn k15(a: u64, b: u64) -> u64 { let x = a % 64 + 1; x.count_ones() as u64 + x.leading_zeros() as u64 * 100 + x.trailing_zeros() as u64 * 10000 + x.next_power_of_two() * 1000000 + (x.wrapping_sub(100) % 7) * 1000000000 + x.is_power_of_two() as u64 * 10000000000 }
+pub fn k16(a: u64, b: u64) -> u64 { let d = Duration::from_secs(a % 100) + Duration::from_millis(b % 5000); let e = d.checked_sub(Duration::from_secs(50)).unwrap_or(Duration::ZERO); d.as_secs() + d.subsec_millis() as u64 * 1000 + e.as_secs() * 10000000 + (d > Duration::from_secs(60)) as u64 * 1000000000 + (d.as_millis() as u64 % 7) * 10000000000 + (d.as_secs_f64() * 2.0) as u64 * 100000000000 }
+pub fn k17(a: u64, b: u64) -> u64 { let v = seq(a, b); let inc = v.iter().zip(v.iter().skip(1)).filter(|(x, y)| x < y).count() as u64; let r: Vec<u64> = v.iter().copied().rev().collect(); let same = v.iter().eq(r.iter().rev()) as u64; inc + same * 10 + (v == r) as u64 * 100 + (v.iter().rev().nth(1).copied().unwrap_or(0)) * 1000 }
+pub fn k18(a: u64, b: u64) -> u64 { let s = format!("k{}|{}", a % 100, b % 10); let n = s.chars().count() as u64; let up = s.to_uppercase(); let parts: Vec<&str> = s.split('|').collect(); let d = s.chars().filter(|c| c.is_ascii_digit()).count() as u64; n + (up == s.to_ascii_uppercase()) as u64 * 100 + parts.len() as u64 * 1000 + d * 10000 + parts[0].len() as u64 * 100000 + s.bytes().next().unwrap_or(0) as u64 * 1000000 }
+pub fn k19(a: u64, b: u64) -> u64 { let l = parking_lot::Mutex::new(a % 9); let g = l.try_lock(); let blocked = l.try_lock().is_none(); drop(g); let free = l.try_lock().is_some(); let rw = parking_lot::RwLock::new(b % 9); let r1 = rw.read(); let r2 = rw.try_read().is_some(); let w = rw.try_write().is_none(); let v = *r1; drop(r1); let fin = *l.lock(); blocked as u64 + free as u64 * 10 + r2 as u64 * 100 + w as u64 * 1000 + v * 10000 + fin * 100000 }
+
+macro_rules! table3 { ($($n:literal => $f:ident),* $(,)?) => {
+    pub fn run3(n: u32, a: u64, b: u64) -> Option<u64> { match n { $($n => Some($f(a, b)),)* _ => None } }
+} }
+table3! { 301 => k01, 302 => k02, 303 => k03, 304 => k04, 305 => k05, 306 => k06, 307 => k07, 308 => k08, 309 => k09, 310 => k10, 311 => k11, 312 => k12, 313 => k13, 314 => k14, 315 => k15, 316 => k16, 317 => k17, 318 => k18, 319 => k19 }
